@@ -242,7 +242,7 @@ def run(ctx):
     only = getattr(ctx, 'only', None)
     if not only or 'ode' in only:
         for nm in sorted(ac.ENTRIES):
-            run_hypothesis(ctx, 'ode', ac.analytic_case(names=[nm], selfloops=True, weights=True, dense=True), prop_ode, 14 if quick else 300, rounds=3)
+            run_hypothesis(ctx, 'ode', ac.analytic_case(names=[nm], selfloops=True, weights=True, dense=True), prop_ode, 24 if quick else 300, rounds=3)
     if not only or 'simulators' in only:
         for sim in simrun.SIMS:
             run_hypothesis(ctx, 'simulators', c19_sim_case(sim), prop_sim,
